@@ -22,7 +22,8 @@ EXPLANATION = (
     "validator and not as a raw library error; (R4) _nodes/_nx_graph are bound only in __init__ (no other path builds an unvalidated graph); "
     "(R5) the per-node metadata the validators read (defaults, annotations) cannot be stale: cached views are invalidated by renames, through "
     "the MRO; (R6) strict type validation visits every value of every data edge, rejects a missing annotation on either side and asks "
-    "is_type_compatible(output type, input type) in that argument order."
+    "is_type_compatible(output type, input type) in that argument order; (R7) the shared-output check compares every unordered pair of producers "
+    "(the 'ordered' relation is not transitive)."
 )
 NOT_DECIDED = "The type-compatibility relation itself (a function over type objects) and the correctness of each individual validator's predicate; position independence is argued from the wiring, not tested."
 
@@ -43,6 +44,7 @@ def run(ctx) -> None:
     rep.rule("C19.R4", "_nodes/_nx_graph are bound only by the validated constructor", floor=2)
     rep.rule("C19.R5", "node metadata read by validators cannot be stale after renames", floor=1)
     rep.rule("C19.R6", "strict type validation covers every value of every data edge", floor=3)
+    rep.rule("C19.R7", "the shared-output check examines every unordered pair of producers", floor=2)
 
     vg = db.func("graph.validation.validate_graph")
     vmod = vg.module
@@ -224,6 +226,24 @@ def run(ctx) -> None:
         ok = bool(solve(["for _T in _G.targets: ...", "_T in self._nodes"], ccb.node))
         rep.add("C19.R3", f"{ccb.qname}:guard", ok, ccb.loc(), "controlled_by only records targets that are nodes" if ok else "controlled_by records targets that are not nodes")
 
+    # ---- R7 ---------------------------------------------------------------------
+    voc_f = db.func("graph._conflict.validate_output_conflicts")
+    n_pairs = 0
+    for lp in [n for n in walk_local(voc_f.node) if isinstance(n, ast.For)]:
+        if not (isinstance(lp.target, ast.Tuple) and len(lp.target.elts) == 2):
+            continue
+        if not any(isinstance(x, ast.Raise) for x in ast.walk(lp)):
+            continue
+        a_, b_ = lp.target.elts
+        if not (isinstance(a_, ast.Name) and isinstance(b_, ast.Name) and any(isinstance(c, ast.Call) and "_is_pair_mutex" in call_names(db, c, voc_f) and [getattr(x, "id", None) for x in c.args[:2]] == [a_.id, b_.id] for c in ast.walk(lp))):
+            continue
+        n_pairs += 1
+        it = lp.iter
+        ok = isinstance(it, ast.Call) and (dotted(it.func) or "").split(".")[-1] == "combinations" and len(it.args) == 2 and isinstance(it.args[1], ast.Constant) and it.args[1].value == 2
+        rep.add("C19.R7", f"{voc_f.qname}:pairs#{n_pairs}", ok, f"{voc_f.module.rel}:{lp.lineno}", "every unordered pair of producers is examined (combinations(sources, 2))" if ok else f"producers are examined through '{src(it)[:50]}': 'ordered' (a path in either direction) is not transitive, so two unordered producers that are not adjacent in the node list are never compared and the graph is accepted")
+    if n_pairs < 2:
+        raise AnalysisError("pair loops of validate_output_conflicts not found")
+
     # ---- R4 ---------------------------------------------------------------------
     for attr in ("_nodes", "_nx_graph"):
         sites = []
@@ -294,5 +314,6 @@ VARIANTS = [
     Variant("invalidate-own-class-only", BASE, replace_once("isinstance(getattr(cls, key, None), functools.cached_property)", "isinstance(vars(cls).get(key), functools.cached_property)"), {"C19.R5"}),
     Variant("types-skip-missing-input-annotation", VA, sub_once(r"            if input_type is None:\n                raise GraphConfigError\(\n.*?\n                \)\n\n            # Check type compatibility", "            if input_type is None:\n                continue\n\n            # Check type compatibility"), {"C19.R6"}),
     Variant("types-args-swapped", VA, replace_once("            if not is_type_compatible(output_type, input_type):", "            if not is_type_compatible(input_type, output_type):"), {"C19.R6"}),
+    Variant("conflicts-adjacent-pairs-only", CO, lambda s_: s_.replace("for a, b in combinations(sources, 2):", "for a, b in zip(sources, sources[1:]):"), {"C19.R7"}),
     Variant("twin-validators-reordered", VA, replace_once("    _validate_gate_targets(nodes)\n    _validate_no_gate_self_loop(nodes)\n", "    _validate_no_gate_self_loop(nodes)\n    _validate_gate_targets(nodes)\n"), set()),
 ]
